@@ -495,3 +495,22 @@ package factstore
 //@   modifies nothing
 //@   ensures sound(a, emitted, old(emitted))
 //@   loop 1 invariant sound(a, emitted, old(emitted))
+
+// ---- C13: coalescing leaves the concrete intervals pairwise apart ---------------------------------------------------
+// Decided here: the finite intervals of the result are pairwise neither overlapping nor adjacent, and no index goes
+// out of range. That the set of covered instants is unchanged is checked by a bounded stand-in only (the
+// existential "some interval covers t" on both sides defeats the solvers).
+//@ spec func conc(i ast.Interval) bool = i.Start.Type == ast.TimestampBound && i.End.Type == ast.TimestampBound
+// apart: x ends at least two instants before y starts (neither overlapping nor adjacent).
+//@ spec func apart(x ast.Interval, y ast.Interval) bool = x.End.Timestamp < y.Start.Timestamp && x.End.Timestamp + 1 < y.Start.Timestamp
+
+//@ func coalesceIntervals(intervals)
+//@   mode bv
+//@   requires forall k int :: 0 <= k && k < len(intervals) && conc(intervals[k]) ==> intervals[k].Start.Timestamp <= intervals[k].End.Timestamp
+//@   modifies nothing
+//@   ensures len(intervals) >= 2 ==> (forall a int, b int :: 0 <= a && a < b && b < len(result) && conc(result[a]) && conc(result[b]) ==> apart(result[a], result[b]))
+//@   loop 1 invariant (forall k int :: 0 <= k && k < len(concrete) ==> conc(concrete[k]) && concrete[k].Start.Timestamp <= concrete[k].End.Timestamp) && (forall k int :: 0 <= k && k < len(other) ==> !conc(other[k]))
+//@   loop 2 invariant 1 <= i#2 && i#2 <= len(concrete) && len(result) >= 1
+//@   loop 2 invariant forall k int :: 0 <= k && k < len(result) ==> conc(result[k]) && result[k].Start.Timestamp <= result[k].End.Timestamp
+//@   loop 2 invariant forall a int, b int :: 0 <= a && a < b && b < len(result) ==> apart(result[a], result[b])
+//@   loop 2 invariant (forall k int :: 0 <= k && k < len(concrete) ==> conc(concrete[k]) && concrete[k].Start.Timestamp <= concrete[k].End.Timestamp) && (forall k int :: 0 <= k && k < len(other) ==> !conc(other[k]))
